@@ -61,7 +61,8 @@ func (w *UDPAssociateWrapper) ReadFrom(p []byte) (n int, addr net.Addr, err erro
 		return
 	}
 
-	n, err = r.Read(p)
+	// An empty payload is a valid datagram: bytes.Reader would report io.EOF.
+	n = copy(p, b[len(b)-r.Len():])
 	// Caller may expect the returned address to be *net.UDPAddr.
 	addr = &net.UDPAddr{
 		IP:   destination.IP,
